@@ -58,7 +58,116 @@ func init() {
 		i := a[0].Int()
 		return L(U(bitmap.MaskUpto[i]), U(bitmap.RMaskUpto[i]), U(bitmap.Bit[i]), U(bitmap.RBit[i]))
 	}
+	// widening: bitmap.Fmt on every integer kind, single value or slice; sz outside {1,2,4,8} = a non-integer type
+	Exec["bitmap.Fmt"] = func(a []V) string {
+		return Str(bitmap.Fmt(c12FmtArg(a[0].Int(), a[1].Bool(), a[2].Bool(), a[3].L)))
+	}
 	Register("C12", genC12)
+}
+
+// c12FmtArg builds the Go value described by (byte size, signedness, slice or single, values).
+func c12FmtArg(sz int, signed, slice bool, xs []V) interface{} {
+	s := func(i int) int64 { return xs[i].Z.Int64() }
+	u := func(i int) uint64 { return xs[i].Z.Uint64() }
+	n := len(xs)
+	if !slice {
+		switch {
+		case sz == 1 && signed:
+			return int8(s(0))
+		case sz == 1:
+			return uint8(u(0))
+		case sz == 2 && signed:
+			return int16(s(0))
+		case sz == 2:
+			return uint16(u(0))
+		case sz == 4 && signed:
+			return int32(s(0))
+		case sz == 4:
+			return uint32(u(0))
+		case sz == 8 && signed:
+			return int64(s(0))
+		case sz == 8:
+			return uint64(u(0))
+		}
+		return "x"
+	}
+	switch {
+	case sz == 1 && signed:
+		r := make([]int8, n)
+		for i := range r {
+			r[i] = int8(s(i))
+		}
+		return r
+	case sz == 1:
+		r := make([]uint8, n)
+		for i := range r {
+			r[i] = uint8(u(i))
+		}
+		return r
+	case sz == 2 && signed:
+		r := make([]int16, n)
+		for i := range r {
+			r[i] = int16(s(i))
+		}
+		return r
+	case sz == 2:
+		r := make([]uint16, n)
+		for i := range r {
+			r[i] = uint16(u(i))
+		}
+		return r
+	case sz == 4 && signed:
+		r := make([]int32, n)
+		for i := range r {
+			r[i] = int32(s(i))
+		}
+		return r
+	case sz == 4:
+		r := make([]uint32, n)
+		for i := range r {
+			r[i] = uint32(u(i))
+		}
+		return r
+	case sz == 8 && signed:
+		r := make([]int64, n)
+		for i := range r {
+			r[i] = int64(s(i))
+		}
+		return r
+	case sz == 8:
+		r := make([]uint64, n)
+		for i := range r {
+			r[i] = u(i)
+		}
+		return r
+	}
+	return make([]string, n)
+}
+
+// c12FmtVal draws a value of a sz-byte integer kind: boundaries, single bits, byte patterns, random.
+func c12FmtVal(g *Gen, sz int, signed bool) string {
+	bitsN := uint(8 * sz)
+	var u uint64
+	switch g.R.Intn(6) {
+	case 0:
+		cs := []uint64{0, 1, 0x80, 0xff, 0x0102, 0x8000, 0x01020408, 0x80000000, 1 << 63, ^uint64(0)}
+		u = cs[g.R.Intn(len(cs))]
+	case 1:
+		u = 1 << uint(g.R.Intn(int(bitsN)))
+	case 2:
+		u = ^(uint64(1) << uint(g.R.Intn(int(bitsN))))
+	default:
+		u = g.R.Words(1)[0]
+	}
+	if bitsN < 64 {
+		u &= 1<<bitsN - 1
+	}
+	if !signed {
+		return U(u)
+	}
+	// sign-extend from bitsN
+	v := int64(u<<(64-bitsN)) >> (64 - bitsN)
+	return I(v)
 }
 
 // c12Positions draws an ascending list of non-negative positions below limit (limit >= 1).
@@ -369,4 +478,52 @@ func genC12(g *Gen) {
 		g.Do("bitmap.Bit", L(Int(i)), key)
 	}
 	g.Exhaust = append(g.Exhaust, "Mask/RMask[0..64], MaskUpto/RMaskUpto/Bit/RBit[0..63]: every entry, plus indices -2,-1 and 64/65,66 (panic)")
+
+	// (7) widening: bitmap.Fmt. Every uint8 / int8 value; every integer kind x single / slice of 0..5 values
+	// (boundaries, single bits, complements, random); []uint64 built by Of; non-integer types (panic, "" for an empty slice)
+	fm := func(sz int, signed, slice bool, vals []string, bucket string) {
+		key := ""
+		if len(vals) > 0 && (sz == 1 || sz == 2 || sz == 4 || sz == 8) {
+			key = fmt.Sprintf("Fmt/sz%d/s%v/sl%v/n%d", sz, signed, slice, minInt(len(vals), 3))
+		} else if sz != 1 && sz != 2 && sz != 4 && sz != 8 {
+			key = fmt.Sprintf("Fmt/notint/sl%v/n%d", slice, minInt(len(vals), 2))
+		}
+		g.Stat(bucket)
+		g.Do("bitmap.Fmt", L(Int(sz), B(signed), B(slice), L(vals...)), key)
+	}
+	for b := 0; b < 256; b++ {
+		fm(1, false, false, []string{Int(b)}, "fmt-byte")
+		fm(1, true, true, []string{Int(b - 128)}, "fmt-byte")
+	}
+	g.Exhaust = append(g.Exhaust, "Fmt: every uint8 value and every int8 value (the byte loop: Reverse8 + %08b on all 256 bytes)")
+	nf := g.N(600, 15000)
+	for k := 0; k < nf; k++ {
+		sz := g.R.Pick(1, 2, 4, 8)
+		signed := g.R.Bool()
+		slice := g.R.Intn(3) > 0
+		n := 1
+		if slice {
+			n = g.R.Range(0, 5)
+		}
+		vals := make([]string, n)
+		for i := range vals {
+			vals[i] = c12FmtVal(g, sz, signed)
+		}
+		fm(sz, signed, slice, vals, "fmt-int")
+	}
+	for k := 0; k < g.N(150, 4000); k++ {
+		ps := c12Positions(g, g.R.Intn(5), g.R.Pick(70, 200, 400), g.R.Pick(1, 3, 10))
+		ws := bitmap.Of(ps)
+		vals := make([]string, len(ws))
+		for i, w := range ws {
+			vals[i] = U(w)
+		}
+		fm(8, false, true, vals, "fmt-of")
+	}
+	for _, sz := range []int{0, 3, 16} {
+		fm(sz, false, false, []string{"1"}, "fmt-notint")
+		fm(sz, false, true, []string{}, "fmt-notint")
+		fm(sz, false, true, []string{"1"}, "fmt-notint")
+		fm(sz, true, true, []string{"1", "2"}, "fmt-notint")
+	}
 }
